@@ -239,17 +239,38 @@ Definition spec_step (cfg : config) (sp : subject) (env : list (N * bool)) (st0 
       | _ => true
       end).
 
-Fixpoint spec6 (cfg : config) (sp : subject) (env : list (N * bool)) (st0 : storage) (steps : list step) : bool :=
+(** most_recently_issued_loaded (Recency.v): as long as every step's issuer answers are dated after
+    all stored certificates (a forward history: judged on the oracle = input and the
+    implementation's storage), what a load returns carries the highest serial among the issuers'
+    complete bundles *)
+Definition forwardb (orc : oracle) (st : storage) : bool :=
+  forallb (fun a => match a with
+                    | Some (nb, _) => forallb (fun e => match snd e with VCrt y => (c_nb y <? nb)%Z | _ => true end) st
+                    | None => true end) (o_out orc).
+Definition spec_recent (cfg : config) (sp : subject) (h : hop) (o : obs) : bool :=
+  negb ((ob_res o =? 0) && is_op h) ||
+  match snd (ob_probe o) with
+  | Some (ser, _, _) =>
+      forallb (fun j => match bundle_at (ob_st o) j (s_save sp) with
+                        | Some b => N.leb (c_ser (b_cert b)) ser
+                        | None => true end) (issuers cfg)
+  | None => true
+  end.
+
+Fixpoint spec6 (cfg : config) (sp : subject) (env : list (N * bool)) (st0 : storage) (fwd : bool) (steps : list step) : bool :=
   match steps with
   | [] => true
-  | (h, _, o) :: r => spec_step cfg sp env st0 h o && spec6 cfg sp (env_after sp st0 h env) (ob_st o) r
+  | (h, orc, o) :: r =>
+      let fwd' := fwd && (negb (is_op h) || forwardb orc st0) in
+      spec_step cfg sp env st0 h o && (negb fwd' || spec_recent cfg sp h o) &&
+      spec6 cfg sp (env_after sp st0 h env) (ob_st o) fwd' r
   end.
 
 Definition get_case6 : dec (config * subject * list step) :=
   c <- get_config ;; s <- get_subject ;; st <- get_list get_step ;; ret (c, s, st).
 Definition check_line6 (l : list Z) : Z :=
   match decode get_case6 l with
-  | Some (cfg, sp, steps) => code (replay6 cfg sp empty_world steps) (spec6 cfg sp [] [] steps)
+  | Some (cfg, sp, steps) => code (replay6 cfg sp empty_world steps) (spec6 cfg sp [] [] true steps)
   | None => code_decode_error
   end.
 Definition explain_line6 (l : list Z) : list Z :=
@@ -316,7 +337,10 @@ Definition spec7 (c : case7) : bool :=
                         | Some ((_, k', c', _) as b) => N.eqb (c_ser c') ser && N.eqb k' k && good_bundle (c7_sp c) b && negb (is_due c')
                         | None => false end) (issuers (c7_cfg c))
   | None => false
-  end && c7_twin c.
+  end && c7_twin c
+  (* ... and the recovery itself obeys the clauses of C06 (complete matching bundle under the
+     documented keys, reload, key reuse / freshness), judged from the storage the fault left behind *)
+  && spec_step (c7_cfg c) (c7_sp c) [] (ob_st (c7_obs1 c)) HManage o2.
 
 Definition check_line7 (l : list Z) : Z :=
   match decode get_case7 l with
